@@ -114,7 +114,7 @@ func renderTemplate(src string) (out string, b built) {
 // probes, shown with {{ }}, must render as "true".
 func (w *worker) checkTemplate(form, decl string, accepted bool, probes []string) {
 	var sb strings.Builder
-	sb.WriteString("{%% " + decl + " %%}")
+	sb.WriteString("{%%\n" + Prelude + decl + " %%}")
 	for _, p := range probes {
 		sb.WriteString("{{ " + p + " }};")
 	}
@@ -153,7 +153,8 @@ func (w *worker) sig(parts ...string) { w.sigs[core.SigJoin(parts...)] = struct{
 func (w *worker) violation(format string, a ...any) {
 	w.counts["violations"]++
 	if len(w.viols) < 8 {
-		w.viols = append(w.viols, fmt.Sprintf(format, a...))
+		// the named-constant prelude is the same in every program: elide it in reports
+		w.viols = append(w.viols, strings.ReplaceAll(fmt.Sprintf(format, a...), Prelude, "// + prelude of named boundary constants (c02.Prelude)\n"))
 	}
 }
 
@@ -412,9 +413,9 @@ func (prop) Work(c core.Case) core.Result {
 
 func (prop) Drive(d *core.Driver) error {
 	depth := d.N(3, 4)
-	nExpr := d.N(12000, 150000)
+	nExpr := d.N(10000, 150000)
 	perCase := 20
-	d.T.Rule = fmt.Sprintf("%d random constant expression trees of depth <= %d over the boundary literal set (0, ±1, 2^k-1/2^k/2^k+1 for k in 7,8,15,16,31,32,63,64,127,128,511,512, 2^53±1, 2^24±1, extreme/subnormal/huge floats, imaginary, rune, string, bool literals), all unary/binary operators, constant shifts, conversions to every basic type, real/imag/complex/len; each is declared as `const c = E`, `const c T = E` and `const c = T(E)` inside func main, type-checked by go/types (go/constant values) and built+run by scriggo; accept/reject and the printed Go values (dynamic type, value bit for bit) plus an exactness probe `c == <exact literal>` are compared. distinct_nontrivial counts distinct (declaration form, type of c, value class incl. magnitude class around the width boundaries and exact-rational vs big.Float representation, observation kind) tuples among accepted constants and (form, reference error class) among rejected ones", nExpr, depth)
+	d.T.Rule = fmt.Sprintf("a fixed systematic set (every boundary operand — literal, computed, converted, named typed/untyped constant at the edges of every integer width — against every small operand with every operator; every float32/float64 rounding-midpoint integer 2^k+2^(k-24), 2^k+2^(k-53) and neighbours with every floating-point and complex type) plus %d random constant expression trees of depth <= %d over the boundary literal set (0, ±1, 2^k-1/2^k/2^k+1 for k in 7,8,15,16,31,32,63,64,127,128,511,512, 2^53±1, 2^24±1, extreme/subnormal/huge floats, imaginary, rune, string, bool literals), all unary/binary operators, constant shifts, conversions to every basic type, real/imag/complex/len; each is declared as `const c = E`, `const c T = E` and `const c = T(E)` inside func main, type-checked by go/types (go/constant values) and built+run by scriggo; accept/reject and the printed Go values (dynamic type, value bit for bit) plus an exactness probe `c == <exact literal>` are compared. distinct_nontrivial counts distinct (declaration form, type of c, value class incl. magnitude class around the width boundaries and exact-rational vs big.Float representation, observation kind) tuples among accepted constants and (form, reference error class) among rejected ones", nExpr, depth)
 	d.T.Assumptions = []string{"go/types and go/constant (go1.25 standard library, GoVersion go1.20) are the reference", "only constant expressions the generator grammar produces are covered",
 		"constant shifts with a count in (1074, 2^64) are not generated: go/types refuses them by an implementation restriction that is not in the language specification",
 		"constant shifts whose count is a typed floating-point or complex constant are not generated: go/types accepts them when the value is integral, contrary to the specification",
@@ -439,6 +440,39 @@ func (prop) Drive(d *core.Driver) error {
 			cur = nil
 		}
 	}
+	// Systematic part (the same at every seed): every boundary operand against
+	// every small operand with every operator, and every rounding midpoint with
+	// every floating-point type. In the quick tier the pairs get the untyped
+	// declaration only, in thorough also a typed and a converted one.
+	sys := 0
+	addSys := func(e Expr) {
+		if referenceNotTrusted(e.Src) {
+			excluded++
+			return
+		}
+		sys++
+		cur = append(cur, e)
+		if len(cur) == perCase {
+			cases = append(cases, core.NewCase(fmt.Sprintf("sys-%d", len(cases)), caseData{Exprs: cur}))
+			cur = nil
+		}
+	}
+	rs := d.Rand("sys")
+	for _, e := range boundaryPairs() {
+		if d.Thorough() {
+			e.Typed = []string{numTypes[rs.Intn(len(numTypes))]}
+			e.Conv = []string{numTypes[rs.Intn(len(numTypes))]}
+		}
+		addSys(e)
+	}
+	for _, e := range midpointConversions() {
+		addSys(e)
+	}
+	if len(cur) > 0 {
+		cases = append(cases, core.NewCase(fmt.Sprintf("sys-%d", len(cases)), caseData{Exprs: cur}))
+		cur = nil
+	}
+	d.T.Set("systematic_expressions", sys)
 	d.T.Set("expressions", nExpr)
 	d.T.Set("excluded_reference_not_trusted", excluded)
 	d.Run(cases, core.RunOpts{})
